@@ -143,7 +143,9 @@ Definition failed_batch (w : wst) : bool :=
 (* (2) backends whose callback is made on a fixed path.  [rs] = per batch, true = the request failed.
    Each function returns the list of callback invocations (their arguments). *)
 
-(* otlp: eg.Wait() returns the first non-nil error of the group; cb(multierr.Errors(err)) *)
+(* otlp: eg.Wait() returns the first non-nil error of the group; cb(multierr.Errors(err)): no entry if
+   it is nil, otherwise its components (one, or several if the batch's error was itself combined);
+   [EPost] stands for that non-empty list *)
 Definition otlp_callbacks (rs : list bool) : list (list cerr) :=
   [if existsb (fun b => b) rs then [EPost] else []].
 
